@@ -17,7 +17,7 @@
     it `stale_view_two_active_witness` (F4 in Lean, replayed on the real code: corpus/C13/F4.json);
   * the graceful stop of the code is the proper one with a window in between (`exit_two_phase`); in that window the
     successor and the exiting operator are both active (`exit_overlap_two_active_witness`, F7, corpus/C13/F7.json);
-  * for timely runs (`Timely`: API calls ≤ B ticks, no old views): `own_record_fresh`, backed by `renewal`;
+  * for timely runs (`Timely`: API calls ≤ B ticks, old views only if benign): `own_record_fresh`, backed by `renewal`;
   * progress / possibility: `resume_after_expiry`, `convergence_possible`.
   The pause EFFECTS (streams closed, daemons stopped, nothing handled beyond queued events, nothing handled twice) have
   no theorem here: they are checked by the simulation oracle only.
@@ -108,9 +108,10 @@ theorem at_most_one_active_partial {u : Int} {s : State} (hr : Reachable u s) (h
   have h2 := (ht j oj hj haj).mp hpj i oi hi hai
   exact hs.good.distinct i j oi oj hi hj hai haj (by omega)
 
-/-- Equal priority is a conflict: two running operators with fresh records of the same priority that
-    have both processed the status are both paused. -/
-theorem equal_priority_both_paused {u : Int} {s s1 s2 : State} {i j : Identity} {oi oj : Op} {ri rj : Rec}
+/-- PARTIAL (guard: both process the current status, or a benign view of it — `benign_stale_eq_deliver`). Equal priority is a
+    conflict: two running operators with fresh records of the same priority that have both processed the status are both
+    paused. -/
+theorem equal_priority_both_paused_partial {u : Int} {s s1 s2 : State} {i j : Identity} {oi oj : Op} {ri rj : Rec}
     (hne : i ≠ j) (hi : s.ops i = some oi) (hj : s.ops j = some oj) (hp : oi.prio = oj.prio)
     (hri : (i, ri) ∈ s.status) (hrj : (j, rj) ∈ s.status) (hpi : ri.priority = oi.prio) (hpj : rj.priority = oj.prio)
     (hfi : ri.dead u s.now = false) (hfj : rj.dead u s.now = false)
@@ -154,6 +155,22 @@ theorem stale_view_two_active_witness :
         (fun s => ((s.ops "A").map (fun o => (o.alive, o.paused)), (s.ops "B").map (fun o => (o.alive, o.paused)), s.status))
       = some (some (true, false), some (true, false), [("B", ⟨10, 10, 0⟩)]) := by decide
 
+set_option synthInstance.maxSize 1024 in
+/-- F5 in Lean (same root as F4, by a restart instead of a renewal). A (priority 100) is killed, its record expires, A is
+    restarted UNDER THE SAME IDENTITY and announces itself (record stamped 128). B then processes the view from before all
+    that: A's old record is dead at B's clock, B hands "A" to `clean()`, the delete-by-identity removes the restarted A's
+    fresh record, B resumes: both running, both active. Replayed on the real code: corpus/C13/F5.json. -/
+theorem restart_stale_view_two_active_witness :
+    (run 64 init [.start "A" 100 2, .start "B" 10 10, .keepalive "A" 0, .keepalive "B" 0, .deliver "A", .deliver "B",
+                  .kill "A", .tick 128, .start "A" 100 2, .keepalive "A" 0, .deliver "A"]).map
+        (fun s => (s.now, s.status, (s.ops "A").map (fun o => (o.alive, o.paused)), (s.ops "B").map (fun o => (o.alive, o.paused))))
+      = some (128, [("A", ⟨100, 2, 128⟩), ("B", ⟨10, 10, 0⟩)], some (true, false), some (true, true)) ∧
+    (run 64 init [.start "A" 100 2, .start "B" 10 10, .keepalive "A" 0, .keepalive "B" 0, .deliver "A", .deliver "B",
+                  .kill "A", .tick 128, .start "A" 100 2, .keepalive "A" 0, .deliver "A",
+                  .deliverStale "B" [("A", ⟨100, 2, 0⟩), ("B", ⟨10, 10, 0⟩)]]).map
+        (fun s => ((s.ops "A").map (fun o => (o.alive, o.paused)), (s.ops "B").map (fun o => (o.alive, o.paused)), s.status))
+      = some (some (true, false), some (true, false), [("B", ⟨10, 10, 0⟩)]) := by decide
+
 /-- A view need not be the current status to be harmless: if, judged at the operator's clock, it blocks the operator exactly
     as the current status does and names for cleaning exactly the identities whose current records are dead (`benignView`:
     nobody renewed, restarted or wrote under those identities since), then processing it IS processing the current status
@@ -162,19 +179,8 @@ theorem stale_view_two_active_witness :
     or a verdict that differs). -/
 theorem benign_stale_eq_deliver {u : Int} {s : State} {i : Identity} {view : Status} {o : Op}
     (ho : s.ops i = some o) (hb : benignView u s i o.prio view = true) :
-    step u s (.deliverStale i view) = step u s (.deliver i) := by
-  have hbv := hb
-  simp only [benignView, Bool.and_eq_true, beq_iff_eq, decide_eq_true_eq] at hb
-  obtain ⟨hbl, hcl⟩ := hb
-  simp only [step, ho]
-  by_cases hg : (o.alive && !o.exiting) = true
-  · rw [if_pos hg, if_pos hg]
-    -- same cleaning (hence same version bump and status), same verdict, same sleep, same `seen`
-    have hst : s.status.eraseAll (decideCore u view.peers i o.prio true (some o.paused) s.now s.now).cleaned =
-        s.status.filter (fun e => !(e.2.dead u s.now && e.1 != i)) := by
-      simpa [decideCore] using hcl
-    simp only [hst, decideCore_status_paused, decideCore_touch, hbl, hbv, if_true]
-  · rw [if_neg hg, if_neg hg]
+    step u s (.deliverStale i view) = step u s (.deliver i) :=
+  benign_eq_deliver ho hb
 
 /-! ## the graceful stop of the code (finding F7) -/
 
@@ -189,8 +195,8 @@ theorem exit_two_phase (u : Int) (s : State) (i : Identity) :
   | none => rfl
   | some o =>
     by_cases hg : (o.alive && !o.exiting) = true
-    · have ha := (guard_iff.mp hg).1
-      simp only [hg, if_true, Option.bind_some, updOp_same, ha, Bool.and_self]
+    · obtain ⟨ha, he⟩ := guard_iff.mp hg
+      simp only [ha, he, Bool.not_false, Bool.and_self, if_true, Option.bind_some, updOp_same]
       congr 2
       funext k
       by_cases hk : k = i <;> simp [updOp, hk]
@@ -203,15 +209,15 @@ theorem exit_two_phase (u : Int) (s : State) (i : Identity) :
     and every operator's last view is current, so only `Good` (A has no record) keeps it out of `Stable`.
     Replayed on the real code: corpus/C13/F7.json (a handler that takes 1.5 s; B handles the same change again). -/
 theorem exit_overlap_two_active_witness :
-    (run 64 init [.start "A" 100 10, .start "B" 10 8, .keepalive "A" 0, .keepalive "B" 0, .deliver "A", .deliver "B"]).map
+    (run 64 init [.start "A" 100 10, .start "B" 10 10, .keepalive "A" 0, .keepalive "B" 0, .deliver "A", .deliver "B"]).map
         (fun s => ((s.ops "A").map (fun o => (o.alive, o.paused)), (s.ops "B").map (fun o => (o.alive, o.paused))))
       = some (some (true, false), some (true, true)) ∧
-    (run 64 init [.start "A" 100 10, .start "B" 10 8, .keepalive "A" 0, .keepalive "B" 0, .deliver "A", .deliver "B",
+    (run 64 init [.start "A" 100 10, .start "B" 10 10, .keepalive "A" 0, .keepalive "B" 0, .deliver "A", .deliver "B",
                   .exitBegin "A", .deliver "B"]).map
         (fun s => ((s.ops "A").map (fun o => (o.alive, o.exiting, o.paused)), (s.ops "B").map (fun o => (o.alive, o.paused)),
                    s.status.map (·.1), (s.ops "B").map (·.seen) == some (some (s.ver, s.now))))
       = some (some (true, true, false), some (true, false), ["B"], true) ∧
-    (run 64 init [.start "A" 100 10, .start "B" 10 8, .keepalive "A" 0, .keepalive "B" 0, .deliver "A", .deliver "B",
+    (run 64 init [.start "A" 100 10, .start "B" 10 10, .keepalive "A" 0, .keepalive "B" 0, .deliver "A", .deliver "B",
                   .exitBegin "A", .deliver "B", .exitEnd "A"]).map
         (fun s => ((s.ops "A").map (·.alive), (s.ops "B").map (fun o => (o.alive, o.paused))))
       = some (some false, some (true, false)) := by decide
@@ -438,7 +444,8 @@ theorem renewal_lifetime_one (u : Int) (t : Int) (r r' : Round) (hu : 0 < u)
 
 /-- In timely runs — every `touch()` call takes at most `B` ticks, `2·B <` the margin of every started operator
     (`renewal`'s bound: then the pinger's next record lands before `nextKA + B`, which time does not overtake), nobody
-    writes under an operator's identity, no old views — a running operator that has touched once ALWAYS has a live record
+    writes under an operator's identity, old views only if benign (`benignView`), the proper exit order — a running operator
+    that has touched once ALWAYS has a live record
     carrying its priority: `Good.own` is an invariant, whatever else happens in whatever order. -/
 theorem own_record_fresh {u B : Int} {s : State} (hu : 0 < u) (hB : 0 ≤ B) (ht : Timely u B s)
     {i : Identity} {o : Op} {k : Int} (ho : s.ops i = some o) (ha : o.alive = true) (hk : o.nextKA = some k) :
@@ -452,13 +459,26 @@ theorem own_record_fresh {u B : Int} {s : State} (hu : 0 < u) (hB : 0 ≤ B) (ht
 
 /-! ## withdrawal and cleanup -/
 
-/-- A graceful exit removes the own record (all of it), leaves the records of others alone, and the
-    operator is gone. -/
-theorem withdraw_on_exit {u : Int} {s s' : State} {i : Identity} (h : step u s (.exit i) = some s') :
+/-- an operator that has withdrawn: gone, or still finishing its handlers after the withdrawal (between `exitBegin` and
+    `exitEnd`); in both cases no call of it sleeps towards a self-touch -/
+def Withdrawn (o : Op) : Prop := (o.alive = false ∨ o.exiting = true) ∧ o.sleeping = false
+
+/-- The withdrawal of a graceful stop — the first thing the code does (`exitBegin`), the last thing it ought to do
+    (`exit`) — removes the own record (all of it), leaves the records of others alone, and the operator has `Withdrawn`: it
+    is gone or only finishing, and no call of it will self-touch. WHEN the withdrawal happens relative to the end of the
+    handling is the difference between the two labels (`exit_two_phase`, F7). -/
+theorem withdraw_on_exit {u : Int} {s s' : State} {i : Identity}
+    (h : step u s (.exitBegin i) = some s' ∨ step u s (.exit i) = some s') :
     (∀ r, (i, r) ∉ s'.status) ∧ (∀ j r, j ≠ i → ((j, r) ∈ s'.status ↔ (j, r) ∈ s.status)) ∧
-      ∃ o, s'.ops i = some o ∧ o.alive = false := by
-  obtain ⟨o, _, _, _, hst, hops, _⟩ := exit_spec h
-  refine ⟨?_, ?_, ⟨{ o with alive := false, sleeping := false, nextKA := none }, by rw [hops]; simp, rfl⟩⟩
+      ∃ o, s'.ops i = some o ∧ Withdrawn o := by
+  have key : s'.status = s.status.erase i ∧ ∃ o, s'.ops i = some o ∧ Withdrawn o := by
+    rcases h with h | h
+    · obtain ⟨o, _, _, _, _, hst, hops, _⟩ := exitBegin_spec h
+      exact ⟨hst, { o with exiting := true, sleeping := false, nextKA := none }, by rw [hops]; simp, Or.inr rfl, rfl⟩
+    · obtain ⟨o, _, _, _, hst, hops, _⟩ := exit_spec h
+      exact ⟨hst, { o with alive := false, sleeping := false, nextKA := none }, by rw [hops]; simp, Or.inl rfl, rfl⟩
+  obtain ⟨hst, hw⟩ := key
+  refine ⟨?_, ?_, hw⟩
   · intro r hm
     rw [hst] at hm
     exact (mem_erase.mp hm).2 rfl
@@ -496,79 +516,108 @@ theorem own_record_not_cleaned {u : Int} {st : List (Identity × RawEntry)} {me 
 
 /-! ## the withdrawal is permanent (was finding F2, repaired by f370f06) -/
 
-/-- An operator that is gone, has no sleeping call and no record stays without a record, whatever else happens in any
-    order — old views, lost exits, late landings included — as long as nobody starts it again or writes a record under
-    its name. (A keep-alive or self-touch PATCH still in flight when the exit begins is not a schedule of the model: the
-    pinger is cancelled before it withdraws, and the exit interrupts the sleeping call: `exit_interrupts_sleep`.) -/
+private theorem exit_not_exiting {u : Int} {s s1 : State} {a : Identity} {o : Op} (h : step u s (.exit a) = some s1)
+    (ho : s.ops a = some o) : o.exiting = false := by
+  simp only [step, ho] at h
+  by_cases hg : (o.alive && !o.exiting) = true
+  · exact (guard_iff.mp hg).2
+  · simp [hg] at h
+
+private theorem deliver_not_exiting {u : Int} {s s1 : State} {a : Identity} {o : Op} (h : step u s (.deliver a) = some s1)
+    (ho : s.ops a = some o) : o.exiting = false := by
+  simp only [step, ho] at h
+  by_cases hg : (o.alive && !o.exiting) = true
+  · exact (guard_iff.mp hg).2
+  · simp [hg] at h
+
+private theorem stale_not_exiting {u : Int} {s s1 : State} {a : Identity} {v : Status} {o : Op}
+    (h : step u s (.deliverStale a v) = some s1) (ho : s.ops a = some o) : o.exiting = false := by
+  simp only [step, ho] at h
+  by_cases hg : (o.alive && !o.exiting) = true
+  · exact (guard_iff.mp hg).2
+  · simp [hg] at h
+
+/-- An operator that has withdrawn (`Withdrawn`: in the order of the code — record first, handlers last — as well as in the
+    proper order) and has no record stays without a record, whatever else happens in any order — old views, lost exits,
+    late landings, its own `exitEnd`, a kill in the middle of the exit — as long as nobody starts it again or writes a
+    record under its name. NOT covered, because it is not a schedule of the model: a self-touch or keep-alive PATCH of the
+    operator itself still in flight when the withdrawal is issued and landing after it (the model's `wake`/`keepalive`
+    land at once; `exit`/`exitBegin` put `sleeping := false`). On the code that needs the API to apply two PATCHes of one
+    client out of issue order (audit N3: reproduced with injected reordering only — ASSUMPTIONS). -/
 theorem withdrawn_stays_from {u : Int} {i : Identity} : ∀ (ls : List Label) (s s' : State),
-    (∃ o, s.ops i = some o ∧ o.alive = false ∧ o.sleeping = false) → (∀ r, (i, r) ∉ s.status) →
+    (∃ o, s.ops i = some o ∧ Withdrawn o) → (∀ r, (i, r) ∉ s.status) →
     (∀ l ∈ ls, (∀ p lt, l ≠ .start i p lt) ∧ (∀ r, l ≠ .foreign i (some r))) →
     run u s ls = some s' → ∀ r, (i, r) ∉ s'.status := by
   intro ls
   induction ls with
   | nil => intro s s' _ hn _ h; simp only [run, Option.some.injEq] at h; subst h; exact hn
   | cons l rest ih =>
-    intro s s' ⟨o, ho, hoa, hos⟩ hn hall h
+    intro s s' ⟨o, ho, hw⟩ hn hall h
+    obtain ⟨hoa, hos⟩ := hw
     simp only [run] at h
     cases hs : step u s l with
     | none => simp [hs] at h
     | some s1 =>
       simp only [hs] at h
       obtain ⟨hl1, hl2⟩ := hall l List.mem_cons_self
-      -- an operator j that acts (is running / sleeping) is not i; its step leaves i's entry and i's (absent) records alone
-      have other : ∀ {j : Identity} {oj onew : Op}, s.ops j = some oj → (oj.alive = true ∨ oj.sleeping = true) →
-          s1.ops = updOp s.ops j onew → (∀ r, (i, r) ∈ s1.status → (i, r) ∈ s.status ∨ False) →
-          (∃ o, s1.ops i = some o ∧ o.alive = false ∧ o.sleeping = false) ∧ ∀ r, (i, r) ∉ s1.status := by
-        intro j oj onew hj hact hops hsub
-        have hji : i ≠ j := by
-          intro e; subst e
-          rw [ho] at hj; injection hj with hj; subst hj
-          rcases hact with h | h
-          · rw [hoa] at h; cases h
-          · rw [hos] at h; cases h
-        refine ⟨⟨o, by rw [hops, updOp_other _ _ hji]; exact ho, hoa, hos⟩, ?_⟩
-        intro r hm
-        rcases hsub r hm with h | h
-        · exact hn r h
-        · exact h
+      -- an operator j ≠ i that acts leaves i's entry and i's (absent) records alone
+      have other : ∀ {j : Identity} {onew : Op}, i ≠ j →
+          s1.ops = updOp s.ops j onew → (∀ r, (i, r) ∈ s1.status → (i, r) ∈ s.status) →
+          (∃ o, s1.ops i = some o ∧ Withdrawn o) ∧ ∀ r, (i, r) ∉ s1.status := by
+        intro j onew hji hops hsub
+        exact ⟨⟨o, by rw [hops, updOp_other _ _ hji]; exact ho, hoa, hos⟩, fun r hm => hn r (hsub r hm)⟩
+      -- a label guarded by "running and not exiting" is not i's
+      have notme : ∀ {j : Identity} {oj : Op}, s.ops j = some oj → oj.alive = true → oj.exiting = false → i ≠ j := by
+        intro j oj hj hja hje e
+        subst e
+        rw [ho] at hj; injection hj with hj; subst hj
+        rcases hoa with h | h
+        · rw [hja] at h; cases h
+        · rw [hje] at h; cases h
+      -- i itself ends (exitEnd / kill / lost exit in the middle): still withdrawn, status untouched
+      have ends : ∀ {j : Identity} {oj onew : Op}, s.ops j = some oj → s1.ops = updOp s.ops j onew →
+          onew.alive = false → onew.sleeping = false → s1.status = s.status →
+          (∃ o, s1.ops i = some o ∧ Withdrawn o) ∧ ∀ r, (i, r) ∉ s1.status := by
+        intro j oj onew hj hops h1 h2 hst
+        by_cases hji : i = j
+        · subst hji
+          exact ⟨⟨onew, by rw [hops]; simp, Or.inl h1, h2⟩, fun r hm => hn r (by rw [hst] at hm; exact hm)⟩
+        · exact other hji hops (fun r hm => by rw [hst] at hm; exact hm)
       have same : s1.ops = s.ops → (∀ r, (i, r) ∈ s1.status → (i, r) ∈ s.status) →
-          (∃ o, s1.ops i = some o ∧ o.alive = false ∧ o.sleeping = false) ∧ ∀ r, (i, r) ∉ s1.status := by
+          (∃ o, s1.ops i = some o ∧ Withdrawn o) ∧ ∀ r, (i, r) ∉ s1.status := by
         intro hops hsub
         exact ⟨⟨o, by rw [hops]; exact ho, hoa, hos⟩, fun r hm => hn r (hsub r hm)⟩
-      have key : (∃ o, s1.ops i = some o ∧ o.alive = false ∧ o.sleeping = false) ∧ ∀ r, (i, r) ∉ s1.status := by
+      have key : (∃ o, s1.ops i = some o ∧ Withdrawn o) ∧ ∀ r, (i, r) ∉ s1.status := by
         cases l with
         | start j p lt =>
           obtain ⟨_, hst, _, _, hops⟩ := start_spec hs
           have hji : i ≠ j := fun e => hl1 p lt (by rw [e])
-          exact ⟨⟨o, by rw [hops, updOp_other _ _ hji]; exact ho, hoa, hos⟩, fun r hm => hn r (by rw [hst] at hm; exact hm)⟩
+          exact other hji hops (fun r hm => by rw [hst] at hm; exact hm)
         | keepalive j lag =>
-          obtain ⟨oj, hj, hja, _, _, _, hst, hops⟩ := keepalive_spec hs
-          refine other hj (Or.inl hja) hops ?_
-          intro r hm
-          by_cases hji : j = i
-          · subst hji; rw [ho] at hj; injection hj with hj; subst hj; rw [hoa] at hja; cases hja
-          · rw [hst] at hm; exact Or.inl ((mem_patch_other hji).mp hm)
+          obtain ⟨oj, hj, hja, hje, _, _, hst, hops⟩ := keepalive_spec hs
+          have hji := notme hj hja hje
+          exact other hji hops (fun r hm => by rw [hst] at hm; exact (mem_patch_other (Ne.symm hji)).mp hm)
         | exit j =>
           obtain ⟨oj, hj, hja, _, hst, hops, _⟩ := exit_spec hs
-          exact other hj (Or.inl hja) hops (fun r hm => by rw [hst] at hm; exact Or.inl (mem_erase.mp hm).1)
+          exact other (notme hj hja (exit_not_exiting hs hj)) hops (fun r hm => by rw [hst] at hm; exact (mem_erase.mp hm).1)
         | exitLost j =>
-          obtain ⟨oj, hj, hja, _, hst, hops, _⟩ := exitLost_spec hs
-          exact other hj (Or.inl hja) hops (fun r hm => by rw [hst] at hm; exact Or.inl hm)
+          obtain ⟨oj, hj, _, _, hst, hops, _⟩ := exitLost_spec hs
+          exact ends hj hops rfl rfl hst
         | exitBegin j =>
-          obtain ⟨oj, hj, hja, _, _, hst, hops, _⟩ := exitBegin_spec hs
-          exact other hj (Or.inl hja) hops (fun r hm => by rw [hst] at hm; exact Or.inl (mem_erase.mp hm).1)
+          obtain ⟨oj, hj, hja, hje, _, hst, hops, _⟩ := exitBegin_spec hs
+          exact other (notme hj hja hje) hops (fun r hm => by rw [hst] at hm; exact (mem_erase.mp hm).1)
         | exitEnd j =>
-          obtain ⟨oj, hj, hja, _, _, hst, _, hops⟩ := exitEnd_spec hs
-          exact other hj (Or.inl hja) hops (fun r hm => by rw [hst] at hm; exact Or.inl hm)
+          obtain ⟨oj, hj, _, _, _, hst, _, hops⟩ := exitEnd_spec hs
+          exact ends hj hops rfl rfl hst
         | kill j =>
-          obtain ⟨oj, hj, hja, _, hst, hops, _⟩ := kill_spec hs
-          exact other hj (Or.inl hja) hops (fun r hm => by rw [hst] at hm; exact Or.inl hm)
+          obtain ⟨oj, hj, _, _, hst, hops, _⟩ := kill_spec hs
+          exact ends hj hops rfl rfl hst
         | deliver j =>
           obtain ⟨oj, hj, hja, _, hst, _, _, hops⟩ := deliver_spec hs
-          exact other hj (Or.inl hja) hops (fun r hm => by rw [hst] at hm; exact Or.inl (List.mem_filter.mp hm).1)
+          exact other (notme hj hja (deliver_not_exiting hs hj)) hops (fun r hm => by rw [hst] at hm; exact (List.mem_filter.mp hm).1)
         | deliverStale j view =>
           obtain ⟨oj, hj, hja, _, hst, _, _, hops⟩ := stale_spec hs
-          exact other hj (Or.inl hja) hops (fun r hm => by rw [hst] at hm; exact Or.inl (mem_eraseAll.mp hm).1)
+          exact other (notme hj hja (stale_not_exiting hs hj)) hops (fun r hm => by rw [hst] at hm; exact (mem_eraseAll.mp hm).1)
         | tick d =>
           simp only [step, Option.some.injEq] at hs; subst hs
           exact same rfl (fun r hm => hm)
@@ -587,18 +636,21 @@ theorem withdrawn_stays_from {u : Int} {i : Identity} : ∀ (ls : List Label) (s
           · exact (mem_patch_other hji).mp hm
         | wake j lag =>
           obtain ⟨oj, hj, hjs, _, hst, hops, _⟩ := wake_spec hs
-          refine other hj (Or.inr hjs) hops ?_
-          intro r hm
-          by_cases hji : j = i
-          · subst hji; rw [ho] at hj; injection hj with hj; subst hj; rw [hos] at hjs; cases hjs
-          · rw [hst] at hm; exact Or.inl ((mem_patch_other hji).mp hm)
+          have hji : i ≠ j := by
+            intro e; subst e
+            rw [ho] at hj; injection hj with hj; subst hj; rw [hos] at hjs; cases hjs
+          exact other hji hops (fun r hm => by rw [hst] at hm; exact (mem_patch_other (Ne.symm hji)).mp hm)
       exact ih s1 s' key.1 key.2 (fun l hl => hall l (List.mem_cons_of_mem _ hl)) h
 
-/-- `withdraw_on_exit`, made permanent: after a graceful exit whose withdrawal landed, the record never comes back. -/
-theorem withdrawn_stays {u : Int} {i : Identity} {s s1 s' : State} (h1 : step u s (.exit i) = some s1) (ls : List Label)
+/-- The withdrawal of a graceful stop is permanent — in the order the code has (`exitBegin`: the record goes first, the
+    operator's handlers still run) and in the proper order (`exit`): from the withdrawal on, through anything the other
+    operators, the clock and the operator's own end (`exitEnd`, a kill) do, the record never comes back. -/
+theorem withdrawn_stays {u : Int} {i : Identity} {s s1 s' : State}
+    (h1 : step u s (.exitBegin i) = some s1 ∨ step u s (.exit i) = some s1) (ls : List Label)
     (hall : ∀ l ∈ ls, (∀ p lt, l ≠ .start i p lt) ∧ (∀ r, l ≠ .foreign i (some r)))
-    (h2 : run u s1 ls = some s') : ∀ r, (i, r) ∉ s'.status :=
-  withdrawn_stays_from ls s1 s' (exit_interrupts_sleep h1).1 (withdraw_on_exit h1).1 hall h2
+    (h2 : run u s1 ls = some s') : ∀ r, (i, r) ∉ s'.status := by
+  obtain ⟨hn, _, hw⟩ := withdraw_on_exit h1
+  exact withdrawn_stays_from ls s1 s' hw hn hall h2
 
 /-! ## convergence is always possible -/
 
@@ -895,12 +947,13 @@ example : ∃ s o, run 64 init [.start "A" 100 10, .start "B" 10 8, .keepalive "
     | none => simp [hA] at f
     | some o =>
       simp only [hA, Option.map_some, Option.some.injEq] at f
-      exact ⟨s, o, rfl, rfl, f.1, f.2, benign_stale_eq_deliver hA f.2⟩
+      exact ⟨s, o, rfl, hA, f.1, f.2, benign_stale_eq_deliver hA f.2⟩
 
 example : (run 64 init [.start "A" 100 2, .start "B" 10 10, .keepalive "A" 0, .keepalive "B" 0, .deliver "A", .deliver "B",
                   .tick 64, .keepalive "A" 0, .tick 64]).map
     (fun s => benignView 64 s "B" 10 [("A", ⟨100, 2, 0⟩), ("B", ⟨10, 10, 0⟩)]) = some false := by decide
 
+set_option synthInstance.maxSize 1024 in
 /-- `failover_after_loss_partial` instantiated, with a `mid` that is not empty and not only ticks: A (top) is killed in the
     stable state; B keeps renewing and keeps processing the status (still paused: A's record is alive) while 11 s pass;
     A's record has expired by then, B's own is fresh; B processes the status once more and is the active one. -/
@@ -917,24 +970,27 @@ example : ∃ s s1 s2 s3, exStable = some s ∧ step 64 s (.kill "A") = some s1 
     let mid : List Label := [.tick 256, .keepalive "B" 1, .deliver "B", .tick 256, .keepalive "B" 0, .tick 192]
     have tot : (exStable.bind (fun s => (step 64 s (.kill "A")).bind (fun s1 => (run 64 s1 mid).bind (fun s2 =>
         (run 64 s2 [.deliver "B"]).map (fun s3 =>
-          ((s1.ops "B").map (·.paused), (s2.ops "B").map (·.paused), (s3.ops "B").map (·.paused),
-           s2.now, s2.status, (s2.ops "A").map (·.alive), (s2.ops "B").map (fun o => (o.alive, o.prio)))))))) =
-        some (some true, some true, some false, 704, [("A", ⟨100, 10, 0⟩), ("B", ⟨10, 8, 512⟩)], some false, some (true, 10)) := by decide
-    rw [h] at tot
-    simp only [Option.bind_some] at tot
+          ((s1.ops "B").map (·.paused), (s2.ops "B").map (·.paused), (s3.ops "B").map (·.paused))))))) =
+        some (some true, some true, some false) := by decide
+    have tot2 : (exStable.bind (fun s => (step 64 s (.kill "A")).bind (fun s1 => (run 64 s1 mid).map (fun s2 =>
+          (s2.now, s2.status, (s2.ops "A").map (·.alive), (s2.ops "B").map (fun o => (o.alive, o.prio))))))) =
+        some (704, [("A", ⟨100, 10, 0⟩), ("B", ⟨10, 8, 512⟩)], some false, some (true, 10)) := by decide
+    rw [h] at tot tot2
+    simp only [Option.bind_some] at tot tot2
     cases h1 : step 64 s (.kill "A") with
     | none => simp [h1] at tot
     | some s1 =>
-      simp only [h1, Option.bind_some] at tot
+      simp only [h1, Option.bind_some] at tot tot2
       cases h2 : run 64 s1 mid with
       | none => simp [h2] at tot
       | some s2 =>
-        simp only [h2, Option.bind_some] at tot
+        simp only [h2, Option.bind_some, Option.map_some, Option.some.injEq, Prod.mk.injEq] at tot tot2
         cases h3 : run 64 s2 [.deliver "B"] with
         | none => simp [h3] at tot
         | some s3 =>
           simp only [h3, Option.map_some, Option.some.injEq, Prod.mk.injEq] at tot
-          obtain ⟨p1, p2, p3, hnow, hstat, hA2, hB2⟩ := tot
+          obtain ⟨p1, p2, p3⟩ := tot
+          obtain ⟨hnow, hstat, hA2, hB2⟩ := tot2
           have hn2 : ∀ i, i ≠ "A" → i ≠ "B" → s2.ops i = none := by
             intro i hA hB
             have : s.ops i = none := by
@@ -967,7 +1023,7 @@ example : ∃ s s1 s2 s3, exStable = some s ∧ step 64 s (.kill "A") = some s1 
             h3
           exact ⟨s, s1, s2, s3, rfl, h1, h2, h3, p1, p2, res.1, p3⟩
 
--- `equal_priority_both_paused`: two operators of priority 10, both delivered, both paused (concretely)
+-- `equal_priority_both_paused_partial`: two operators of priority 10, both delivered, both paused (concretely)
 example : ((run 64 init [.start "A" 10 10, .start "B" 10 10, .keepalive "A" 0, .keepalive "B" 0, .deliver "A", .deliver "B"]).map
     (fun s => ((s.ops "A").map (·.paused), (s.ops "B").map (·.paused)))) = some (some true, some true) := by decide
 
